@@ -1,7 +1,7 @@
 (* C18/Proofs.v — lemmas about the MUC client model. *)
 From Coq Require Import List Bool Arith Lia.
 Import ListNotations.
-From XV Require Import lib.Lts gen.Muc C18.Model.
+From XV Require Import lib.Bytes lib.Lts gen.Muc C18.Model.
 
 (* ---------------------------------------------------------------- tactics *)
 
@@ -21,7 +21,7 @@ Ltac step_leaves H :=
   try (injection H as H); try subst.
 
 Ltac simp_state :=
-  cbn [calls ncalls chans srv cb_pres cb_inv set_call add_call set_chan set_srv log_pres log_inv take
+  cbn [calls ncalls chans srv cb_pres cb_inv set_call add_call set_chan set_srv log_pres log_invs take
        c_kind c_addr c_phase c_done c_replied with_phase with_done with_replied returned
        ch_made ch_entry ch_joined ch_jq ch_dep with_entry with_joined with_jq with_dep] in *.
 
@@ -32,7 +32,7 @@ Proof. intro n. apply Nat.eqb_refl. Qed.
 
 Lemma serve_eqb_eq : forall x y, serve_eqb x y = true -> x = y.
 Proof.
-  intros [|a|a] [|b|b] H; cbn in H; try discriminate; try reflexivity;
+  intros [|a|a|] [|b|b|] H; cbn in H; try discriminate; try reflexivity;
     apply Nat.eqb_eq in H; subst; reflexivity.
 Qed.
 
@@ -60,28 +60,102 @@ Proof. reflexivity. Qed.
 
 (* ---------------------------------------------------------------- invitations *)
 
+(* what HandleInvite is called with, read off the history: per delivered message
+   the calls of [msg_calls] *)
+Definition delivered_of (tr : list label) : list nat :=
+  flat_map (fun l => match l with LDeliver (Msg cs) => msg_calls cs | _ => [] end) tr.
+
+(* the property's side: every invite element of every delivered message, once, in order *)
+Definition invites_in (cs : list child) : list nat :=
+  flat_map (fun c => match c with CInvite i => [i] | _ => [] end) cs.
 Definition invites_of (tr : list label) : list nat :=
-  flat_map (fun l => match l with LDeliver (Invite i) => [i] | _ => [] end) tr.
+  flat_map (fun l => match l with LDeliver (Msg cs) => invites_in cs | _ => [] end) tr.
 
 Lemma take_cb_inv : forall s a, cb_inv (take s a) = cb_inv s.
 Proof. intros s a. unfold take. destruct (ch_jq (chans s a)); reflexivity. Qed.
 
 Lemma step_cb_inv : forall s l s', step s l = Some s' ->
-  cb_inv s' = cb_inv s ++ match l with LDeliver (Invite i) => [i] | _ => [] end.
+  cb_inv s' = cb_inv s ++ match l with LDeliver (Msg cs) => msg_calls cs | _ => [] end.
 Proof.
   intros s l s' H. destruct l as [k kd a|k|k|k o|k|st|  |k|a b];
     step_leaves H; simp_state; rewrite ?take_cb_inv; rewrite ?app_nil_r; reflexivity.
 Qed.
 
-Lemma invites_of_app : forall a b, invites_of (a ++ b) = invites_of a ++ invites_of b.
-Proof. intros a b. unfold invites_of. apply flat_map_app. Qed.
+Lemma delivered_of_app : forall a b, delivered_of (a ++ b) = delivered_of a ++ delivered_of b.
+Proof. intros a b. unfold delivered_of. apply flat_map_app. Qed.
 
-Lemma invites_exactly_once : forall tr s, exec tr = Some s -> cb_inv s = invites_of tr.
+Lemma invites_exact : forall tr s, exec tr = Some s -> cb_inv s = delivered_of tr.
 Proof.
   intros tr s H. unfold exec in H.
-  apply (invariant_hist _ _ step (fun h s => cb_inv s = invites_of h) init) with (tr := tr); [reflexivity| |exact H].
-  intros h s0 l s1 _ IH Hs. rewrite (step_cb_inv _ _ _ Hs), IH, invites_of_app.
+  apply (invariant_hist _ _ step (fun h s => cb_inv s = delivered_of h) init) with (tr := tr); [reflexivity| |exact H].
+  intros h s0 l s1 _ IH Hs. rewrite (step_cb_inv _ _ _ Hs), IH, delivered_of_app.
   f_equal. cbn. rewrite app_nil_r. reflexivity.
+Qed.
+
+(* a message with at most one muc#user payload, whatever else it carries *)
+Definition single_payload (cs : list child) : Prop := length (filter is_userx cs) <= 1.
+
+Lemma decoded_no_userx : forall cs acc, filter is_userx cs = [] -> decoded cs acc = acc.
+Proof.
+  induction cs as [|c r IH]; intros acc H; [reflexivity|].
+  destruct c; cbn [filter is_userx] in H; try discriminate H; cbn [decoded]; apply IH; exact H.
+Qed.
+
+Lemma invites_in_no_userx : forall cs, filter is_userx cs = [] -> invites_in cs = [].
+Proof.
+  induction cs as [|c r IH]; intros H; [reflexivity|].
+  destruct c; cbn [filter is_userx] in H; try discriminate H; cbn; apply IH; exact H.
+Qed.
+
+Lemma invites_in_cons : forall c r,
+  invites_in (c :: r) = (match c with CInvite i => [i] | _ => [] end) ++ invites_in r.
+Proof. reflexivity. Qed.
+
+Lemma msg_calls_single : forall cs, single_payload cs -> msg_calls cs = invites_in cs.
+Proof.
+  unfold single_payload, msg_calls. intros cs.
+  assert (G : forall acc, length (filter is_userx cs) <= 1 ->
+              (filter is_userx cs = [] -> decoded cs acc = acc /\ invites_in cs = []) /\
+              (forall c, filter is_userx cs = [c] ->
+                 decoded cs acc = (match c with CInvite i => Some i | _ => None end) /\
+                 invites_in cs = match c with CInvite i => [i] | _ => [] end)).
+  { induction cs as [|c r IH]; intros acc Hl.
+    - split; [intros _; split; reflexivity|intros c Hc; discriminate Hc].
+    - destruct c; cbn [filter is_userx] in *.
+      + (* CInvite *) cbn [length] in Hl. assert (Hr : filter is_userx r = []) by (destruct (filter is_userx r); [reflexivity|cbn in Hl; lia]).
+        split; [intros Hc; discriminate Hc|]. intros c Hc. injection Hc as <- _.
+        cbn [decoded]. rewrite (decoded_no_userx r _ Hr), invites_in_cons, (invites_in_no_userx r Hr). split; reflexivity.
+      + cbn [length] in Hl. assert (Hr : filter is_userx r = []) by (destruct (filter is_userx r); [reflexivity|cbn in Hl; lia]).
+        split; [intros Hc; discriminate Hc|]. intros c Hc. injection Hc as <- _.
+        cbn [decoded]. rewrite (decoded_no_userx r _ Hr), invites_in_cons, (invites_in_no_userx r Hr). split; reflexivity.
+      + cbn [decoded]. rewrite invites_in_cons. cbn [app]. destruct (IH acc Hl) as [I1 I2]. split; [intros Hc; exact (I1 Hc)|intros c Hc; exact (I2 c Hc)].
+      + cbn [decoded]. rewrite invites_in_cons. cbn [app]. destruct (IH acc Hl) as [I1 I2]. split; [intros Hc; exact (I1 Hc)|intros c Hc; exact (I2 c Hc)]. }
+  intros Hl. destruct (G None Hl) as [G0 G1].
+  destruct (filter is_userx cs) as [|c [|c2 r2]] eqn:Ef.
+  - destruct (G0 eq_refl) as [-> ->]. reflexivity.
+  - destruct (G1 c eq_refl) as [-> ->]. destruct c; reflexivity.
+  - cbn in Hl. lia.
+Qed.
+
+Lemma invites_once_partial : forall tr s,
+  exec tr = Some s ->
+  (forall cs, In (LDeliver (Msg cs)) tr -> single_payload cs) ->
+  cb_inv s = invites_of tr.
+Proof.
+  intros tr s H Hs. rewrite (invites_exact tr s H). unfold delivered_of, invites_of.
+  clear H. induction tr as [|l tr IH]; [reflexivity|].
+  cbn [flat_map]. rewrite IH by (intros cs Hin; apply Hs; right; exact Hin). f_equal.
+  destruct l as [| | | | |st| | |]; try reflexivity. destruct st; try reflexivity.
+  apply msg_calls_single. apply Hs. left. reflexivity.
+Qed.
+
+(* two muc#user payloads in one message: the handler runs twice and both times
+   sees the last one *)
+Lemma invites_once_refuted :
+  exists tr s, exec tr = Some s /\ cb_inv s <> invites_of tr.
+Proof.
+  exists [LDeliver (Msg [CInvite 1; CInvite 2])].
+  eexists. split; [vm_compute; reflexivity|]. vm_compute. discriminate.
 Qed.
 
 (* ---------------------------------------------------------------- well-formedness *)
@@ -721,13 +795,25 @@ Qed.
 
 Lemma unjoined_rooms_ignored : forall tr s a,
   exec tr = Some s -> (forall k, ~ In (LCall k KJoin a) tr) -> srv s = SIdle ->
-  step s (LDeliver (PresAvail a)) = Some s /\ step s (LDeliver (PresUnavail a)) = Some s.
+  step s (LDeliver (PresAvail a)) = Some s /\ step s (LDeliver (PresUnavail a)) = Some s /\
+  step s (LDeliver (PresBad a)) = Some s.
 Proof.
   intros tr s a H Hno Hs.
   assert (He : ch_entry (chans s a) = false).
   { destruct (ch_entry (chans s a)) eqn:E; [|reflexivity].
     destruct (entry_needs_join_call tr s a H E) as [k Hin]. exfalso. exact (Hno k Hin). }
-  cbn [step]. rewrite Hs. cbn [deliver]. rewrite He. split; reflexivity.
+  cbn [step]. rewrite Hs. cbn [deliver]. rewrite He. repeat split; reflexivity.
+Qed.
+
+(* ... whereas the same undecodable payload from a managed address is an error
+   that ends the Serve loop *)
+Lemma managed_bad_payload_ends_serve : forall s a,
+  srv s = SIdle -> ch_entry (chans s a) = true ->
+  exists s', step s (LDeliver (PresBad a)) = Some s' /\ srv s' = SDead /\
+             forall st, step s' (LDeliver st) = None.
+Proof.
+  intros s a Hs He. eexists. cbn [step]. rewrite Hs. cbn [deliver]. rewrite He.
+  split; [reflexivity|]. split; [reflexivity|]. intros st. reflexivity.
 Qed.
 
 (* ---------------------------------------------------------------- replies are honoured *)
@@ -1023,5 +1109,19 @@ Lemma tbl_registrations :
   muc_handles_available_presence && muc_handles_unavailable_presence && muc_handles_normal_message = true /\
   muc_registrations = 3.
 Proof. vm_compute. split; reflexivity. Qed.
+(* every registration is for the muc#user x payload and nothing wider: the
+   multiplexer calls the client's handler once per muc#user x child ([is_userx])
+   and never for an x of another namespace *)
+Lemma tbl_patterns :
+  muc_ns_user = str "http://jabber.org/protocol/muc#user" /\
+  muc_patterns =
+    [(str "Presence", str "AvailablePresence", muc_ns_user, str "x");
+     (str "Presence", str "UnavailablePresence", muc_ns_user, str "x");
+     (str "Message", str "NormalMessage", muc_ns_user, str "x")].
+Proof. vm_compute. split; reflexivity. Qed.
+(* HandlePresence consults the table and drops the presence of an address that
+   is not managed BEFORE it decodes the payload ([deliver] on [PresBad]) *)
+Lemma tbl_lookup_before_decode : muc_presence_lookup_before_decode = true.
+Proof. vm_compute. reflexivity. Qed.
 Lemma tbl_joined_returns_flag : muc_joined_returns_flag = true.
 Proof. vm_compute. reflexivity. Qed.
